@@ -691,3 +691,69 @@ Definition run_precompute_indptr (x : sx) : sx :=
       end
   | _ => sx_bad
   end.
+
+(* ---------------------------------------------------------------- helpers of the statements
+   (pure additions used by Props/C13.v; no definition above refers to them) *)
+(* the stored entries of major slice j: its minor indices and its values, in storage order *)
+Definition row_entries (m : comp) (j : nat) : list nat * list Z :=
+  (slice (idx m) (nth j (ptr m) 0) (nth (S j) (ptr m) 0),
+   slice (dat m) (nth j (ptr m) 0) (nth (S j) (ptr m) 0)).
+
+(* a source of amalgamate_h5ad with the rows taken from it: the decoded form of the wire
+   values read by [sx_source_sparse] / [sx_source_dense] *)
+Inductive source : Type :=
+| SrcSparse (m : comp) (n_cols : nat) (rows : list nat)
+| SrcDense (d : dense) (n_rows : nat) (rows : list nat).
+
+Definition sx_source (x : sx) : option source :=
+  match x with
+  | L [I 0%Z; m; nc; rows] =>
+      match sx_comp m, sx_nat nc, sx_Lnat rows with
+      | Some m', Some nc', Some rows' => Some (SrcSparse m' nc' rows')
+      | _, _, _ => None
+      end
+  | L [I 1%Z; d; nr; rows] =>
+      match sx_LLZ d, sx_nat nr, sx_Lnat rows with
+      | Some d', Some nr', Some rows' => Some (SrcDense d' nr' rows')
+      | _, _, _ => None
+      end
+  | _ => None
+  end.
+
+(* what _amalgamate_h5ad reads from one source for a sparse / a dense destination *)
+Definition piece_sparse (s : source) : res comp :=
+  match s with
+  | SrcSparse m _ rows => load_disjoint_csr rows m
+  | SrcDense d nr rows => bind (dense_get_batch rows nr d) (fun b => Ok (csr_of_dense b))
+  end.
+Definition piece_dense (s : source) : res dense :=
+  match s with
+  | SrcSparse m nc rows => csr_get_batch rows nc m
+  | SrcDense d nr rows => dense_get_batch rows nr d
+  end.
+
+(* amalgamate_h5ad(dst_sparse=True / False) on decoded sources: the bodies of
+   [run_amalgamate_sparse] / [run_amalgamate_dense] *)
+Definition amalgamate_to_csr (srcs : list source) (n_rows : nat) : res comp :=
+  bind (res_all (map piece_sparse srcs)) (fun pieces => amalgamate_csr pieces n_rows).
+Definition amalgamate_to_dense (srcs : list source) : res dense :=
+  bind (res_all (map piece_dense srcs)) (fun pieces => Ok (amalgamate_dense pieces)).
+
+(* the rows a source contributes, read off its dense view *)
+Definition source_rows (nc : nat) (s : source) : dense :=
+  match s with
+  | SrcSparse m _ rows => map (fun r => nth r (dense_of m (length (ptr m) - 1) nc) []) rows
+  | SrcDense d _ rows => map (fun r => nth r d []) rows
+  end.
+
+(* an admissible source: a well-formed duplicate-free CSR matrix (or an n_rows x nc
+   array) and a non-empty duplicate-free list of its rows *)
+Definition source_ok (nc : nat) (s : source) : Prop :=
+  match s with
+  | SrcSparse m nc' rows =>
+      nc' = nc /\ wf_csr m (length (ptr m) - 1) nc /\ no_dup_minor m /\
+      rows <> [] /\ NoDup rows /\ Forall (fun r => r < length (ptr m) - 1) rows
+  | SrcDense d nr rows =>
+      length d = nr /\ Forall (fun row => length row = nc) d /\
+      rows <> [] /\ NoDup rows /\ Forall (fun r => r < nr) rows
+  end.
